@@ -23,7 +23,7 @@ pub const INFO: PropInfo = PropInfo {
         "all atomics involved are SeqCst, so interleaving at the six scheduling points is complete for this protocol (DESIGN.md 2.5)",
         "the oracle names no deadline while sessions are still running; every session ends by itself (client closes, or keep-alive timeout)",
     ],
-    expected_probes: &["c18.signal_during_first_poll", "c18.signal_between_checked_and_published", "c18.sessions_in_flight_at_signal", "c18.late_connect_refused", "c18.second_signal", "c18.slow_handler_finished_after_signal", "c18.spinner_rule_engaged", "c18.signal_with_no_sessions", "c18.session_ended_by_panic", "c18.sse_stream_in_flight", "c18.accept_failed"],
+    expected_probes: &["c18.signal_during_first_poll", "c18.signal_between_checked_and_published", "c18.sessions_in_flight_at_signal", "c18.late_connect_refused", "c18.second_signal", "c18.slow_handler_finished_after_signal", "c18.spinner_rule_engaged", "c18.signal_with_no_sessions", "c18.session_ended_by_panic", "c18.sse_stream_in_flight", "c18.accept_failed", "c18.connect_attempt_after_handler_returned"],
 };
 
 #[derive(Clone, Debug, Serialize, Deserialize)]
@@ -119,6 +119,9 @@ async fn slow(req: &Request) -> &'static str {
 
 #[derive(Default)]
 struct CObs {
+    /// simulated instant of the connection attempt, and whether something was listening at that instant
+    attempt_at: Option<u64>,
+    listening_at_attempt: bool,
     refused: bool,
     refused_at_step: Option<u64>,
     connected_at_step: Option<u64>,
@@ -128,10 +131,21 @@ struct CObs {
 }
 
 thread_local! {
+    /// simulated instant at which the first run of the Ctrl-C closure returned
+    static FIRST_HANDLER_DONE_AT: std::cell::Cell<Option<u64>> = const { std::cell::Cell::new(None) };
     /// executor step at which the first SIGINT reached the handler thread
     static FIRST_DELIVERY_STEP: std::cell::Cell<Option<u64>> = const { std::cell::Cell::new(None) };
     /// SIGINTs whose time has come but which the (simulated) kernel has not yet handed to the handler thread
     static DUE: std::cell::Cell<u32> = const { std::cell::Cell::new(0) };
+}
+/// one step of the handler thread; remembers the simulated instant at which the first handler run completed
+fn step_handler() -> Option<String> {
+    let r = signal::step();
+    if r.as_deref() == Some("done") && FIRST_HANDLER_DONE_AT.with(|f| f.get()).is_none() {
+        let now = simcore::with(|w| w.now);
+        FIRST_HANDLER_DONE_AT.with(|f| f.set(Some(now)));
+    }
+    r
 }
 fn try_deliver() -> bool {
     if DUE.with(|d| d.get()) > 0 && signal::handler_installed() && !signal::can_step() && signal::deliver() {
@@ -155,6 +169,7 @@ fn execute(sc: &Scenario, out: &mut Outcome) {
     out.scenario_hash = rt::fnv64(serde_json::to_string(sc).unwrap_or_default().as_bytes());
     signal::reset();
     FIRST_DELIVERY_STEP.with(|f| f.set(None));
+    FIRST_HANDLER_DONE_AT.with(|f| f.set(None));
 
     // interleaving decisions at the poll's scheduling points (executor thread)
     let first_poll_seen = Rc::new(RefCell::new(false));
@@ -180,7 +195,7 @@ fn execute(sc: &Scenario, out: &mut Outcome) {
                     // how far does the handler thread get right here?
                     let k = t::weighted(&[4, 2, 1, 1, 1]);
                     for _ in 0..k {
-                        match signal::step() {
+                        match step_handler() {
                             Some(p) => cur.push(if p == "done" { "sig:done".to_string() } else { p }),
                             None => break,
                         }
@@ -247,7 +262,7 @@ fn execute(sc: &Scenario, out: &mut Outcome) {
         w.ext_ready = Some(Box::new(|| signal::can_step() || (DUE.with(|d| d.get()) > 0 && signal::handler_installed())));
         w.ext_step = Some(Box::new(|| {
             if signal::can_step() {
-                let _ = signal::step();
+                let _ = step_handler();
             } else {
                 try_deliver();
             }
@@ -281,6 +296,12 @@ fn execute(sc: &Scenario, out: &mut Outcome) {
         let plan = plan.clone();
         simcore::spawn_task(format!("client{i}"), "client", async move {
             sleep(plan.start_ms.max(1) * MS).await;
+            {
+                let (now, open) = simcore::with(|w| (w.now, w.listener_open(rt::ADDR)));
+                let mut ob = o.borrow_mut();
+                ob.attempt_at = Some(now);
+                ob.listening_at_attempt = open;
+            }
             let mut c = match Client::connect(rt::ADDR, ConnCfg::default()).await {
                 Ok(c) => c,
                 Err(_) => {
@@ -378,7 +399,7 @@ fn execute(sc: &Scenario, out: &mut Outcome) {
     // let a handler thread that is still parked finish, so that no thread outlives the run
     let mut guard = 0;
     while signal::can_step() && guard < 16 {
-        let _ = signal::step();
+        let _ = step_handler();
         guard += 1;
     }
     let (delivered, finished) = signal::counts();
@@ -460,6 +481,28 @@ fn execute(sc: &Scenario, out: &mut Outcome) {
         _ => {
             out.violate("stops-only-after-interrupt", "howl-returned-before-the-interrupt", format!("howl returned at step {sds}, the first interrupt reached the handler at step {first_delivery:?}; accept failures injected: {:?}", sc.accept_errors));
             return;
+        }
+    }
+    // "stops accepting": in the simulated world the clock only moves when nothing is runnable, so at every instant later
+    // than the one at which the Ctrl-C closure returned (and woke the accept loop) the loop has observed the interrupt.
+    // From then on nothing may be listening: a connection attempt must be refused at once, not parked in a backlog
+    // until the sessions have drained.
+    if let Some(hd) = FIRST_HANDLER_DONE_AT.with(|f| f.get()) {
+        for (i, _) in sc.clients.iter().enumerate() {
+            let ob = obs[i].borrow();
+            if let Some(at) = ob.attempt_at {
+                if at > hd {
+                    out.probe("c18.connect_attempt_after_handler_returned");
+                    if ob.listening_at_attempt {
+                        out.violate(
+                            "stops-accepting",
+                            "still-listening-after-the-interrupt",
+                            format!("client {i} tried to connect at t={at} ns, after the Ctrl-C closure had returned at t={hd} ns and the accept loop had run: the listening socket was still open (the attempt is not refused; it waits in the backlog while sessions drain)"),
+                        );
+                        return;
+                    }
+                }
+            }
         }
     }
     for (i, _) in sc.clients.iter().enumerate() {
